@@ -293,6 +293,31 @@ func runOverflow(c *Ctx) {
 		}
 	}
 	c.Check(okCut, "overflow result length", fn.Pos(), "the assembled payload is cut to the declared payload length")
+	// the walk goes on until the assembled payload reaches the declared length
+	{
+		t := &Termer{P: p}
+		hs := loopHeaders(fn)
+		okLoop := false
+		why := "no loop"
+		if len(hs) == 1 {
+			kind, w := classifyLoop(p, t, fn, hs[0])
+			why = kind + " " + w
+			if kind == "growth" {
+				// the bound compared with len(buffer) is the declared payload length
+				for b := range loopBody(hs[0]) {
+					if iff, ok := b.Instrs[len(b.Instrs)-1].(*ssa.If); ok {
+						if bo, ok := iff.Cond.(*ssa.BinOp); ok {
+							x, y := t.Term(bo.X, emptyPS()), t.Term(bo.Y, emptyPS())
+							if (strings.HasPrefix(x, "len(") && strings.HasSuffix(y, ".Length")) || (strings.HasPrefix(y, "len(") && strings.HasSuffix(x, ".Length")) {
+								okLoop = true
+							}
+						}
+					}
+				}
+			}
+		}
+		c.Check(okLoop, "overflow walk length", fn.Pos(), "overflow pages are read while the assembled payload is shorter than the declared length (so a partly filled last page is read too): %s", why)
+	}
 	// the walk starts from the cell's own overflow pointer and follows `next`
 	okFollow := false
 	for _, in := range instrs(fn) {
@@ -875,5 +900,243 @@ func runVarint(c *Ctx) {
 		default:
 			c.Fail(key, lp.Exit.Pos(), "a varint ends on a path that established neither `9th byte` nor (`not 9th byte` ∧ `high bit clear`): the 9th byte must contribute 8 bits whatever its high bit is; path [%s] returns (%s, %s)", pathDesc(lp), val, cnt)
 		}
+	}
+}
+
+func fmtPageRule() *Rule {
+	return &Rule{ID: "FMT-page", Props: []string{"C01", "C02", "C14"}, Min: 12,
+		Doc: "b-tree page and cell layout per fileformat2 §1.6: page type codes 13/5/10/2 select the right page kind; cell count at header bytes 3..4, right-most pointer at 8..11, cell pointer array at 8 (leaf) / 12 (interior), header at byte 100 on page 1, cell offsets relative to the page start; cell formats: table leaf = varint length, varint rowid, payload; table interior = 4-byte child, varint key; index leaf = varint length, payload; index interior = 4-byte child, varint length, payload",
+		Run: runFmtPage}
+}
+
+func runFmtPage(c *Ctx) {
+	p := c.P
+	t := &Termer{P: p}
+	fn := c.MustFunc("db", "newBtree")
+	if fn != nil {
+		paths, _ := EnumLits(fn.Blocks[0], 0, TabOpts{Termer: t, EventOf: callEvents(p)})
+		seen := map[string]bool{}
+		for _, lp := range paths {
+			if lp.Exit == nil {
+				continue
+			}
+			hb := "p:b"
+			if lp.Has("p:isFileHeader", token.EQL, "true", true) {
+				hb = "p:b[const:100:]"
+			}
+			typ := ""
+			for _, l := range lp.Lits {
+				if l.Subject == hb+"[const:0]" && l.Op == token.EQL && l.Val {
+					typ = l.C
+				}
+			}
+			key := "page type " + orStr(typ, "other") + map[bool]string{true: " (page 1)", false: ""}[hb != "p:b"]
+			seq := normSeq(travSeq(lp))
+			cnt := "(encoding/binary.bigEndian).Uint16(g:BigEndian, " + hb + "[const:3:const:5])"
+			ptr := func(h string) string { return "(encoding/binary.bigEndian).Uint32(g:BigEndian, " + h + "[const:8:const:12])" }
+			var want []string
+			switch typ {
+			case "13":
+				want = []string{j(cnt, "db.newLeafTableBtree(call:(encoding/binary.bigEndian).Uint16, "+hb+"[const:8:], p:b, p:pageSize)")}
+			case "5":
+				want = []string{j(cnt, ptr(hb), "db.newInteriorTableBtree(call:(encoding/binary.bigEndian).Uint16, "+hb+"[const:12:], p:b, call:(encoding/binary.bigEndian).Uint32)")}
+			case "10":
+				for _, h := range []string{hb, "p:b"} {
+					want = append(want, j(cnt, "db.newLeafIndex(call:(encoding/binary.bigEndian).Uint16, "+h+"[const:8:], p:b, p:pageSize)"))
+				}
+			case "2":
+				for _, h := range []string{hb, "p:b"} {
+					want = append(want, j(cnt, ptr(h), "db.newInteriorIndex(call:(encoding/binary.bigEndian).Uint16, "+h+"[const:12:], p:b, call:(encoding/binary.bigEndian).Uint32, p:pageSize)"))
+				}
+			default:
+				c.Check(retErrDefinitelyNonNil(lp, t), key, lp.Exit.Pos(), "an unknown page type is an error")
+				continue
+			}
+			seen[typ] = true
+			ok := false
+			for _, w := range want {
+				if seq == w {
+					ok = true
+				}
+			}
+			c.Check(ok, key, lp.Exit.Pos(), "page is parsed as [%s]; the format requires [%s]", seq, want[0])
+		}
+		for _, ty := range []string{"13", "5", "10", "2"} {
+			if !seen[ty] {
+				c.Fail("page type "+ty, fn.Pos(), "page type %s is not handled", ty)
+			}
+		}
+	}
+	x := "((((p:pageSize-const:12)*const:64)/const:255)-const:23)"
+	cells := map[string]string{
+		"db.parseTableLeaf": j("db.readVarint(p:c)", "db.readVarint(p:c[call:db.readVarint#1:])",
+			"db.parsePayload(call:db.readVarint#0, p:c[call:db.readVarint#1:][call:db.readVarint@2#1:], p:pageSize, (p:pageSize-const:35))") + " ⇒ left=call:db.readVarint@2#0 payload=call:db.parsePayload#0",
+		"db.parseTableInterior": j("(encoding/binary.bigEndian).Uint32(g:BigEndian, p:c[:const:4])", "db.readVarint(p:c[const:4:])") + " ⇒ left=call:(encoding/binary.bigEndian).Uint32 key=call:db.readVarint#0",
+		"db.parseIndexLeaf":     j("db.readVarint(p:c)", "db.parsePayload(call:db.readVarint#0, p:c[call:db.readVarint#1:], p:pageSize, "+x+")") + " ⇒ ",
+		"db.parseIndexInterior": j("(encoding/binary.bigEndian).Uint32(g:BigEndian, p:c[:const:4])", "db.readVarint(p:c[const:4:])",
+			"db.parsePayload(call:db.readVarint#0, p:c[const:4:][call:db.readVarint#1:], p:pageSize, "+x+")") + " ⇒ left=call:(encoding/binary.bigEndian).Uint32 payload=call:db.parsePayload#0",
+	}
+	for name, want := range cells {
+		parts := strings.SplitN(name, ".", 2)
+		fn := c.MustFunc(parts[0], parts[1])
+		if fn == nil {
+			continue
+		}
+		paths, _ := EnumLits(fn.Blocks[0], 0, TabOpts{Termer: t, EventOf: callEvents(p)})
+		best := ""
+		n := 0
+		for _, lp := range paths {
+			if lp.Exit == nil {
+				continue
+			}
+			// the complete parse: the path on which every guard passed (the longest event sequence)
+			var stores []string
+			for _, e := range lp.Events {
+				if e.Kind == "store" && e.Name != "[]" {
+					stores = append(stores, e.Name+"="+e.Val)
+				}
+			}
+			s := reGen.ReplaceAllString(strings.Join(travSeq(lp), " ; "), "") + " ⇒ " + strings.Join(stores, " ")
+			if len(lp.Events) >= n {
+				n, best = len(lp.Events), s
+			}
+		}
+		c.Check(best == want, "cell "+name, fn.Pos(), "cell is parsed as [%s]; the format requires [%s]", best, want)
+	}
+}
+
+func masterRule() *Rule {
+	return &Rule{ID: "MASTER", Props: []string{"C01", "C10", "C05"}, Min: 5,
+		Doc: "sqlite_master rows: five columns (type, name, tbl_name, rootpage, sql) taken from record positions 0..4 with their types checked before use, name and tbl_name lower-cased, a NULL sql accepted; table scans decode each cell as addOverflow → parseRecord → callback(rowid, record)",
+		Run: runMaster}
+}
+
+func runMaster(c *Ctx) {
+	p := c.P
+	t := &Termer{P: p}
+	cl := findFn(p, "(*db.Database).master$1")
+	if cl == nil {
+		c.Undecided("anchor master callback", token.NoPos, "not found")
+		return
+	}
+	paths, _ := EnumLits(cl.Blocks[0], 0, TabOpts{Termer: t, EventOf: callEvents(p)})
+	rec := "call:db.parseRecord#0"
+	want := map[string]string{
+		"typ":      "assert(" + rec + "[const:0],string)#0",
+		"name":     "lower(assert(" + rec + "[const:1],string)#0)",
+		"tblName":  "lower(assert(" + rec + "[const:2],string)#0)",
+		"rootPage": "assert(" + rec + "[const:3],int64)#0",
+		"sql":      "assert(" + rec + "[const:4],string)#0",
+	}
+	n := 0
+	for _, lp := range paths {
+		if lp.Exit == nil || retErrDefinitelyNonNil(lp, t) {
+			continue
+		}
+		n++
+		key := "master row:" + pathSig(lp, 99)
+		var problems []string
+		if !lp.Holds("len("+rec+")", token.EQL, "5") {
+			problems = append(problems, "the row is used without checking that it has five columns")
+		}
+		seq := travSeq(lp)
+		if len(seq) < 2 || seq[0] != "db.addOverflow(fv:db, p:pl)" || seq[1] != "db.parseRecord(call:db.addOverflow#0)" {
+			problems = append(problems, "the row is not decoded as parseRecord(addOverflow(db, payload))")
+		}
+		// resolve lower-casing calls
+		lower := map[string]string{}
+		for _, e := range lp.Events {
+			if e.Kind == "call" && e.Name == "strings.ToLower" {
+				lower[t.Term(e.Instr.(ssa.Value), lp.PS)] = "lower(" + e.Args[0] + ")"
+			}
+		}
+		got := map[string]string{}
+		for _, e := range lp.Events {
+			if e.Kind == "store" {
+				v := e.Val
+				if l, ok := lower[v]; ok {
+					v = l
+				}
+				got[e.Name] = v
+			}
+		}
+		for f, w := range want {
+			g, has := got[f]
+			if f == "sql" && !has {
+				if !lp.Has("type("+rec+"[const:4])", token.EQL, "nil", true) {
+					problems = append(problems, "sql left empty for a value that is not NULL")
+				}
+				continue
+			}
+			if g != w {
+				problems = append(problems, fmt.Sprintf("%s = %s, expected %s", f, g, w))
+			}
+		}
+		for i, ty := range []string{"string", "string", "string", "int64"} {
+			if !lp.Has(fmt.Sprintf("type(%s[const:%d])", rec, i), token.EQL, ty, true) {
+				problems = append(problems, fmt.Sprintf("column %d used without its type being checked", i))
+			}
+		}
+		stored := false
+		for _, e := range lp.Events {
+			if e.Kind == "store" && strings.HasPrefix(e.Name, "fv:") && strings.HasPrefix(e.Val, "append(") {
+				stored = true
+			}
+		}
+		if !stored {
+			problems = append(problems, "the row is not added to the object list")
+		}
+		if b, isC := constBool(lp.PS.Resolve(lp.Exit.Results[0])); !isC || b {
+			problems = append(problems, "the master scan is stopped early")
+		}
+		c.Check(len(problems) == 0, key, cl.Pos(), "sqlite_master row mapping %s", strings.Join(problems, "; "))
+	}
+	if n == 0 {
+		c.Fail("master row", cl.Pos(), "no accepting path")
+	}
+	// master() scans the table rooted at page 1
+	if fn := p.Func("db", "(*Database).master"); fn != nil {
+		ok := false
+		for _, cs := range callsIn(fn) {
+			if cal := cs.Common().StaticCallee(); cal != nil && p.FnKey(cal) == "(*db.Database).openTable" {
+				if n, isC := constInt(cs.Common().Args[1]); isC && n == 1 {
+					ok = true
+				}
+			}
+		}
+		c.Check(ok, "master root page", fn.Pos(), "sqlite_master is the table b-tree rooted at page 1")
+	}
+	// Table.Scan / Table.Rowid decode sequence
+	if cl := findFn(p, "(*db.Table).Scan$1"); cl != nil {
+		paths, _ := EnumLits(cl.Blocks[0], 0, TabOpts{Termer: t, EventOf: callEvents(p)})
+		good := false
+		for _, lp := range paths {
+			if lp.Exit == nil || !cleanPath(lp) {
+				continue
+			}
+			s := strings.Join(travSeq(lp), " ; ")
+			good = s == "db.addOverflow(fv:t.db, p:pl) ; db.parseRecord(call:db.addOverflow#0) ; func-value:db.TableScanCB(p:rowid, call:db.parseRecord#0)"
+			if !good {
+				c.Fail("Table.Scan decode", cl.Pos(), "a table cell is delivered as [%s]", s)
+				return
+			}
+		}
+		c.Check(good, "Table.Scan decode", cl.Pos(), "each cell: addOverflow → parseRecord → callback(rowid of that cell, record)")
+	}
+	if fn := p.Func("db", "(*Table).Rowid"); fn != nil {
+		paths, _ := EnumLits(fn.Blocks[0], 0, TabOpts{Termer: t, EventOf: callEvents(p)})
+		good := false
+		for _, lp := range paths {
+			if lp.Exit == nil {
+				continue
+			}
+			seq := travSeq(lp)
+			if len(seq) < 2 || !strings.HasPrefix(seq[len(seq)-1], "db.parseRecord(") {
+				continue
+			}
+			good = strings.HasPrefix(seq[len(seq)-2], "db.addOverflow(p:t.db, ") && seq[len(seq)-1] == "db.parseRecord(call:db.addOverflow#0)" &&
+				t.Term(lp.Exit.Results[0], lp.PS) == "call:db.parseRecord#0"
+		}
+		c.Check(good, "Table.Rowid decode", fn.Pos(), "the found cell is decoded as parseRecord(addOverflow(db, that cell's payload))")
 	}
 }
